@@ -102,6 +102,37 @@ func VerifC15ReplicaKey() {
 	verifCover("end")
 }
 
+// (2a) every distinct (host, instance) pair is a node of its own: two destinations with free host (1..2 bytes) and
+// instance (0..1 bytes) texts that differ as PAIRS (they may share the host, or agree once host and instance are
+// written one after the other: ("ab", "") and ("a", "b")) each get their replicas on the ring, under their own key text.
+func VerifC15TwoNodes() {
+	var ds []*dest.Destination
+	var hosts, insts []string
+	for i := 0; i < 2; i++ {
+		tag := string(rune('0' + i))
+		h := verifC15Name("host"+tag, 1+verifChoice("hostlen"+tag, 2))
+		in := verifC15Name("inst"+tag, verifChoice("instlen"+tag, 2))
+		hosts, insts = append(hosts, h), append(insts, in)
+		ds = append(ds, &dest.Destination{Addr: h + ":2003", Instance: in})
+	}
+	verifAssume(verifOr(hosts[0] != hosts[1], insts[0] != insts[1]))
+	R := 1 + verifChoice("replicas", verifC15IntParam("maxreplicas", 1))
+	h := NewConsistentHasherReplicaCount(ds, R)
+	verifAssert(len(h.Ring) == 2*R, "every-distinct-host-instance-pair-has-its-replicas-on-the-ring")
+	for di := 0; di < 2; di++ {
+		for i := 0; i < R; i++ {
+			want := verifC15Pos(verifC15Text(hosts[di], insts[di], i))
+			found := false
+			for _, e := range h.Ring {
+				hit := verifAnd(verifAnd(e.Position == want, e.Hostname == hosts[di]), verifAnd(e.Instance == insts[di], e.DestinationIndex == di))
+				found = verifOr(found, hit)
+			}
+			verifAssert(found, "replica-key-text-host-instance-index")
+		}
+	}
+	verifCover("end")
+}
+
 // (2b) the production constructor uses 100 replicas numbered 0..99 in decimal.
 func VerifC15Replicas100() {
 	d0 := &dest.Destination{Addr: "10.0.0.1:2003", Instance: "a"}
